@@ -186,6 +186,20 @@ Example C18_content_length_nonvacuous :
   wb s = true /\ r_cl (run_plain s) = [bs "3"] /\ parse_int (bs "3") = Some 3%Z.
 Proof. vm_compute. repeat split; reflexivity. Qed.
 
+(* static files (GET): the header, if still there, is FormatInt of the number of bytes sent —
+   whichever sibling was picked and whatever gzip decided *)
+Theorem C18_static_content_length_correct :
+  forall sl dexts prio (gz : list bytes -> bytes) cs cfgs path ae data sibs,
+  let out := gzip_serve sl dexts cs cfgs path ae (static_script prio false ae data sibs) in
+  r_cl out = [] \/ r_cl out = [decimal (N.of_nat (length (wire gz false out)))].
+Proof. exact static_content_length. Qed.
+Print Assumptions C18_static_content_length_correct.
+
+Example C18_decimal_parse_roundtrip_samples :
+  forallb (fun n => match parse_int (decimal n) with Some z => (z =? Z.of_N n)%Z | None => false end)
+          [0; 1; 9; 10; 37; 99; 100; 2600; 65535; 4294967296; 9223372036854775807] = true.
+Proof. vm_compute. reflexivity. Qed.
+
 (* ---- 4. clients that did not offer gzip get the identity response ---- *)
 (* true as the code reads the header (substring test), for every handler whatsoever *)
 Theorem C18_identity_when_not_offered_partial :
